@@ -224,7 +224,7 @@ def random_history(rnd: random.Random, prop: str, length: int) -> tuple[dict, li
     for _ in range(length):
         n = rnd.choice(nodes_pool)
         c = rnd.choice([0, 1, 2, 254])
-        t = rnd.choice([0, 1, 2, 48])
+        t = rnd.choice([0, 1, 2, 48, 19])
         p = rnd.choice(PAYLOADS)
         r = rnd.random()
         w = {"C04": (.14, .3, .5, .58, .8, .84, .9, .95), "C06": (.06, .12, .25, .4, .8, .85, .9, .97),
@@ -246,9 +246,9 @@ def random_history(rnd: random.Random, prop: str, length: int) -> tuple[dict, li
             elif prop in ("C07", "C08", "C12"):
                 it = rnd.choice([wake_t, wake_t, wake_t, 22, 32, 0, 18])
             elif prop == "C05":
-                it = rnd.choice([2, 2] + list(range(0, 36)))
+                it = rnd.choice([2, 2, -1, -15] + list(range(0, 36)))
             else:
-                it = rnd.choice([0, 1, 2, 3, 6, 9, 11, 12, 14, 21, 22, 32, 18, 16, 5, maxint, maxint + 1, wake_t])
+                it = rnd.choice([0, 1, 2, 3, 6, 9, 11, 12, 14, 21, 22, 32, 18, 16, 5, maxint, maxint + 1, wake_t, -1, -15])
             pl = p
             if it == 0:
                 pl = rnd.choice(["57", "0", "100", "7.6", "99.4", "12"] + (["abc", "", "150", "-3", "nan"] if prop == "C03" else []))
@@ -262,7 +262,7 @@ def random_history(rnd: random.Random, prop: str, length: int) -> tuple[dict, li
             if prop in ("C08", "C12", "C03") and it in (22, 32) and rnd.random() < (0.6 if prop == "C08" else 0.3):
                 ev["fault"] = f"rel:{rnd.randint(1, 4)}"
         elif r < w[5]:
-            ev = dict(k="recv", n=n, c=255, cmd=4, ack=0, t=rnd.choice([0, 1, 5, 6]), p="")
+            ev = dict(k="recv", n=n, c=255, cmd=4, ack=0, t=rnd.choice([0, 1, 5, 6, -1]), p="")
             if prop == "C10" and rnd.random() < 0.3:
                 ev = dict(k="recv", n=n, c=c, cmd=1, ack=0, t=t, p=p, fault="pres")
         elif r < w[6]:
@@ -279,6 +279,8 @@ def random_history(rnd: random.Random, prop: str, length: int) -> tuple[dict, li
                 ev = dict(k="send", n=n, c=255, cmd=3, ack=0, t=rnd.choice([13, 18, 19, 20, 6, 1, maxint + 1]), p="")
             else:
                 ev = dict(k="send", n=n, c=255, cmd=4, ack=0, t=rnd.choice([0, 1, 3]), p=p)
+            if prop == "C10" and rnd.random() < 0.3:   # the application asks a node for its presentation itself
+                ev = dict(k="send", n=n, c=255, cmd=3, ack=0, t=19, p="")
             ev["buf"] = rnd.random() < 0.85
         elif r < w[7]:
             ev = dict(k="reboot", n=n) if rnd.random() < (0.5 if prop == "C05" else 0.75) else dict(k="cycle")
@@ -290,6 +292,8 @@ def random_history(rnd: random.Random, prop: str, length: int) -> tuple[dict, li
             if rnd.random() < 0.4:
                 gcls, gline = rnd.choice(GENERATED_BAD)
                 ev = dict(k="recvbad", p=gcls, line=gline)
+        if ev["k"] == "recv" and ev.get("ack", 0) == 0 and rnd.random() < 0.12:
+            ev["ack"] = 1       # a node may set the ack flag on anything it sends; it is handled all the same
         evs.append(ev)
     return init, evs
 
@@ -322,8 +326,8 @@ def version_grid(tier: str) -> list[tuple[dict, list]]:
     """C05: every release version of a grid, reported through both wire paths, followed by type-gate probes."""
     out = []
     majors = [0, 1, 2, 3, 10] if tier == "quick" else [0, 1, 2, 3, 10, 99999]
-    probes = [dict(k="recv", n=1, c=255, cmd=3, ack=0, t=t, p="") for t in (14, 15, 17, 18, 28, 29, 32, 33, 34)]
-    probes += [dict(k="recv", n=1, c=255, cmd=4, ack=0, t=t, p="") for t in (0, 5, 6)]
+    probes = [dict(k="recv", n=1, c=255, cmd=3, ack=0, t=t, p="") for t in (14, 15, 17, 18, 28, 29, 32, 33, 34, -1, -15)]
+    probes += [dict(k="recv", n=1, c=255, cmd=4, ack=0, t=t, p="") for t in (0, 5, 6, -1)]
     k = 0
     for major in majors:
         for minor in range(0, 7):
